@@ -68,7 +68,9 @@ func c03Run(c *vcore.Ctx) *vcore.Violation {
 	nblocks := 1 + src.Int(4, "nblocks")
 	for b := 0; b < nblocks; b++ {
 		blockNo = b
-		kind := src.Pick("proc", "main", "main", "fork", "vfork", "thread")
+		// (spawn: vfork + execve of the probe itself with the block as its script - a process of the tree that
+		// replaces its image; whatever the tracer keeps per process must survive that, for every other process too)
+		kind := src.Pick("proc", "main", "main", "fork", "vfork", "thread", "spawn")
 		n := 1 + src.Int(3, "ncalls")
 		if kind == "main" {
 			script = append(script, genCalls("main", n, fatalShape)...)
@@ -250,7 +252,7 @@ func c03Run(c *vcore.Ctx) *vcore.Violation {
 func init() {
 	register(&vcore.Prop{
 		ID: "C03", Level: "exploration", Worlds: "K",
-		Rule:       "one run = one probe program of 1..4 blocks executed by the main process, a forked child, a vforked child or a thread (children issue their first traced call immediately); every call is mkdirat of a unique name (traced; verdict allow/ban/kill decided by the scripted handler from the name) or mkdir (outside both lists: killed by the filter default), plus 0..4 traced calls without a path (sched_yield) each answered on its own; the caller's stack depth is swept; BanRet varied per run; afterwards the file system and the program's own report of return values are compared with the verdicts. distinct = hash of the (process, verdict) sequence; non-trivial = a secondary process or thread issued calls",
+		Rule:       "one run = one probe program of 1..4 blocks executed by the main process, a forked child, a vforked child, a child that execs the probe again (vfork+execve) or a thread (children issue their first traced call immediately); every call is mkdirat of a unique name (traced; verdict allow/ban/kill decided by the scripted handler from the name) or mkdir (outside both lists: killed by the filter default), plus 0..4 traced calls without a path (sched_yield) each answered on its own; the caller's stack depth is swept; BanRet varied per run; afterwards the file system and the program's own report of return values are compared with the verdicts. distinct = hash of the (process, verdict) sequence; non-trivial = a secondary process or thread issued calls",
 		Components: kComponents, Assumptions: append([]string{"the relative order of two simultaneously pending tracee stops is the kernel's; oracles do not depend on it"}, kAssume...), NeedNS: true,
 		Quick:    vcore.Budget{Wall: 30 * time.Second, Shards: 16},
 		Thorough: vcore.Budget{Wall: 12 * time.Minute, Shards: 16},
